@@ -201,7 +201,7 @@ def c19_event(run, d, cur_writer):
     ok = d.get("outcome") == "ok" and "streams" in d
     ev = {"ev": "c19", "origin": run["id"], "dumpNo": d.get("dump_no", 1), "outcome": d.get("outcome"), "memCount": -1, "expMem": -2, "memOk": False,
           "blamedListed": False, "excCtxRva": -1, "excCtxSize": -1, "blamedCtxRva": -2, "skip": bool(cur_writer.get("skip")),
-          "principalGiven": cur_writer.get("principal") not in (None, "unset"), "nStacks": -1}
+          "principalGiven": cur_writer.get("principal") not in (None, "unset"), "principalResolves": False, "nStacks": -1}
     if not ok:
         return ev
     st = d["streams"]
@@ -220,4 +220,8 @@ def c19_event(run, d, cur_writer):
     ev.update({"memCount": st["memlist"]["count"], "expMem": nstacks + len(cur_writer.get("app_memory", [])) + ipwin, "memOk": mem_ok,
                "blamedListed": bt is not None, "excCtxRva": st["exception"]["ctx_rva"], "excCtxSize": st["exception"]["ctx_size"],
                "blamedCtxRva": bt["ctx_rva"] if bt else -2, "nStacks": nstacks})
+    pa = d["writer"].get("principal")
+    if pa is not None and ev["principalGiven"]:
+        from . import threads as _t
+        ev["principalResolves"] = _t.find_map(_t.parse_maps(d["oracle"]["maps"]), pa) is not None
     return ev
